@@ -32,3 +32,19 @@ pub fn lex_fresh(f: usize) -> LexFormat {
 pub fn guarded<R>(f: impl FnOnce() -> R) -> Option<R> {
     std::panic::catch_unwind(std::panic::AssertUnwindSafe(f)).ok()
 }
+
+
+/// An enum format BY VALUE, the way user code holds one when it writes `FORMAT_HAN.parse(..)` on the
+/// `const` (a temporary) or keeps the format in a re-assigned local: different formats then live
+/// at the same address one after the other. `#[inline(never)]` keeps the slot in this frame.
+#[inline(never)]
+pub fn with_temp_enum_format<R>(f: usize, body: impl FnOnce(&EnumFormat<&'static str>) -> R) -> R {
+    let slot: EnumFormat<&'static str> = match f {
+        0 => ef::FORMAT_ASCII,
+        1 => ef::FORMAT_LATEX,
+        _ => ef::FORMAT_HAN,
+    };
+    let r = body(std::hint::black_box(&slot));
+    std::hint::black_box(&slot);
+    r
+}
